@@ -370,6 +370,77 @@ class H:
                 self._crecord(f"{name}[{j}]", ok, f"fd={fd:.8g} code={gf[j]:.8g} consistent={consistent}")
 
 
+    # ------------------------------------------------------------------ derivatives as values
+    def jacobian(self, f, x, rel_step=1e-6):
+        """matrix d f_i / d x_j of a vector function f at x (x: flat array of plain inputs)"""
+        x = np.asarray(x)
+        if self.sym:
+            y = np.asarray(f(x.copy())).ravel()
+            J = np.empty((y.size, x.size), dtype=object)
+            for i in range(y.size):
+                memo = {}
+                for j in range(x.size):
+                    xe = R(x.ravel()[j])
+                    assert z3.is_const(xe)
+                    J[i, j] = SymReal(diff(R(y[i]), xe, memo if False else None))
+            return J
+        xf = np.asarray(x, dtype=float).ravel()
+        y0 = np.asarray(f(xf.copy().reshape(x.shape)), dtype=float).ravel()
+        J = np.zeros((y0.size, xf.size))
+        for j in range(xf.size):
+            hh = rel_step * (1 + abs(xf[j]))
+            xp, xm = xf.copy(), xf.copy()
+            xp[j] += hh
+            xm[j] -= hh
+            J[:, j] = (np.asarray(f(xp.reshape(x.shape)), dtype=float).ravel() - np.asarray(f(xm.reshape(x.shape)), dtype=float).ravel()) / (2 * hh)
+        return J
+
+    def derivative_at(self, f, var, at, order, step=2e-3):
+        """d^order f / d var^order evaluated at var = `at` (f: scalar function of one scalar)."""
+        if self.sym:
+            assert isinstance(var, SymReal) and z3.is_const(var.e)
+            e = R(f(var))
+            for _ in range(order):
+                e = diff(e, var.e)
+            return SymReal(z3.simplify(z3.substitute(e, (var.e, R(at)))))
+        a = float(at)
+        hh = step
+        if order == 0:
+            return float(f(a))
+        if order == 1:
+            return (float(f(a + hh)) - float(f(a - hh))) / (2 * hh)
+        if order == 2:
+            return (float(f(a + hh)) - 2 * float(f(a)) + float(f(a - hh))) / (hh * hh)
+        raise NotImplementedError
+
+    # ------------------------------------------------------------------ definedness as a property
+    def assume_off_kinks(self):
+        """exclude the measure-zero set where a folded coordinate lands exactly on a wall multiple"""
+        self.note_assumption("trajectories landing exactly on a wall multiple (measure zero) are excluded")
+        if self.sym:
+            for (a, b, q, f) in self.ctx.floor_list:
+                self.ctx.side.append(f > 0)
+
+    def mark(self):
+        return len(self.ctx.assume) if self.sym else 0
+
+    def defined(self, name, value, since=0):
+        """every division / log / sqrt executed since `since` was defined (no NaN / inf)"""
+        if self.sym:
+            hyps = list(self.ctx.side) + list(self.ctx.assume[:since]) + list(self.ctx.pc)
+            conds = self.ctx.assume[since:]
+            name = self._uniq(name)
+            neg = z3.simplify(z3.Or(*[z3.Not(c) for c in conds])) if conds else z3.BoolVal(False)
+            o = Obligation(name, hyps, neg, None, "assert", None)
+            if z3.is_false(neg):
+                o.status = "unsat"
+            self.obligations.append(o)
+        else:
+            with np.errstate(all="ignore"):
+                ok = bool(np.all(np.isfinite(np.asarray(value, dtype=float))))
+            self._crecord(name, ok, f"value={np.asarray(value).ravel()[:6]}")
+
+
 def _flat_args(args):
     flat = []
     for a in args:
@@ -494,7 +565,7 @@ def run_unit(u, tier="quick", seed=0, query_timeout_ms=None, log=print):
                                 branch_timeout_ms=opts.get("branch_timeout_ms", 3000),
                                 max_int_fork=opts.get("max_int_fork", 16),
                                 wall_s=opts.get("explore_wall_s", 600),
-                                ctx_opts={k: opts[k] for k in ("floor_lemmas", "axioms_in_branch") if k in opts})
+                                ctx_opts={k: opts[k] for k in ("floor_lemmas", "axioms_in_branch", "floor_fork") if k in opts})
     out = {
         "unit": u.name, "property": u.prop, "tier": tier, "params": {k: repr(v) for k, v in u.params.items()},
         "paths": 0, "aborted": {}, "obligations": 0, "unsat": 0, "sat": 0, "unknown": 0, "trivial": 0,
@@ -525,12 +596,23 @@ def run_unit(u, tier="quick", seed=0, query_timeout_ms=None, log=print):
         out["paths"] += 1
         # reachability twin: the path's hypotheses must be satisfiable
         st, _ = solve(ctx.hyps(), timeout_ms=min(qto, 1500), want_model=False)
+        path_unsat = False
         if st == "unsat":
-            out["aborted"]["vacuous"] = out["aborted"].get("vacuous", 0) + 1
-            continue
+            # the path ends in an undefined / contradictory region; obligations recorded before
+            # that point are still meaningful if their own hypotheses are satisfiable
+            path_unsat = True
+            keep = []
+            for o in h.obligations:
+                if o.status == "unsat" or solve(o.hyps, timeout_ms=min(qto, 3000), want_model=False)[0] != "unsat":
+                    keep.append(o)
+            h.obligations = keep
+            if not keep:
+                out["aborted"]["vacuous"] = out["aborted"].get("vacuous", 0) + 1
+                continue
+            out["reachable_paths_noaxioms"] += 1
         if st == "sat":
             out["reachable_paths"] += 1
-        else:
+        elif not path_unsat:
             # satisfiable at least at the level of the abstraction (no transcendental axioms)?
             st2, _ = solve(ctx.hyps(), timeout_ms=qto, want_model=False, use_axioms=False)
             if st2 == "unsat":
@@ -595,7 +677,7 @@ def run_unit(u, tier="quick", seed=0, query_timeout_ms=None, log=print):
 
 
 def _dec(ctx):
-    return "".join(("T" if d[1] else "F") if d[0] == "b" else f"<{d[1]}>" for d in ctx.decisions)
+    return "".join(("T" if d[1] else "F") if d[0] == "b" else f"<{d[1]}>" for d in ctx.decisions)[:200]
 
 
 def replay_unit(u, inputs, uf_tables=None):
